@@ -1,0 +1,12 @@
+//go:build verif
+
+package catalog
+
+// Contracts for govc (/verif). Comment-only file: invisible without -tags verif.
+
+//@ inlinepkg github.com/jsightapi/jsight-schema-core/bytes
+//@ inlinepkg github.com/jsightapi/jsight-schema-core/fs
+
+// Determinism (C06): see core/zz_verif_contracts.go
+//@ maporder (ObjectBuilder).AddProperty 1 AddType registers user types under distinct names taken from a map's keys (assumed commutative)
+//@ maporder NewExchangeJSightSchema 1 AddRule registers rules under distinct names taken from a map's keys (assumed commutative)
